@@ -57,7 +57,7 @@ class C01(Property):
                         for bit in (range(8) if thorough else [rng.randrange(8)]):
                             toks += ["F.%d.%d.%d.%d" % (recv, kk, pos, bit), "Q.%d" % recv]
                     out.append("pc " + " ".join(toks))
-                    toks = list(base) + ["Q.%d" % recv]
+                    toks = list(base) + ["B.%d" % kk, "Q.%d" % recv]
                     for cut in (range(0, 130) if thorough else sorted(set([0, 1, 2, 8, 9, 12, 13, 36, 40, 70, 100, 129] + [rng.randrange(0, 130) for _ in range(30)]))):
                         toks += ["T.%d.%d.%d" % (recv, kk, cut), "Q.%d" % recv]
                     out.append("pc " + " ".join(toks))
@@ -97,11 +97,46 @@ class C01(Property):
             out.append(s.line())
         return out
 
+    @staticmethod
+    def _real_bytes(ops, outs):
+        """datagram index -> real bytes of this run, from the read-only B ops"""
+        return {int(o.split(".")[1]): bytes.fromhex(r[1:]) for o, r in zip(ops, outs) if o.startswith("B.") and r.startswith("b")}
+
+    @staticmethod
+    def _zero_completed(op, real):
+        """F11 instance test, decided on the real bytes: op T.<obj>.<k>.<cut> truncates the genuine HANDSHAKE datagram k and
+        every removed byte is 0x00.  The handshake parser is handed MsgBuffer::buffer() - the message AND what lies behind
+        it - and a fresh buffer is zero filled, so its view of such a prefix is the complete genuine message again."""
+        p = op.split(".")
+        if p[0] != "T":
+            return False
+        d = real.get(int(p[2]))
+        cut = int(p[3])
+        return d is not None and len(d) > 0 and d[0] == 0xff and 0 < cut < len(d) and all(b == 0 for b in d[cut:])
+
     def model_line(self, line, impl_out):
-        return nu.model_line(line, impl_out) if line.startswith("node ") else line
+        if line.startswith("node "):
+            return nu.model_line(line, impl_out)
+        ops, outs = line.split()[1:], impl_out.split()
+        if len(ops) != len(outs):
+            return line
+        real = self._real_bytes(ops, outs)
+        # whether the removed bytes are zero is a fact about the real signature (an oracle value of this run, like the
+        # salts): where it holds, the parser's view is the stale-tail view that the model op V (PStale) describes.
+        # The real bytes are passed along with the harness-only B op, which the model side merely echoes.
+        def tr(o, r):
+            if o.startswith("B.") and r.startswith("b"):
+                return "%s.%s" % (o, r[1:])
+            return ("V" + o[1:]) if self._zero_completed(o, real) else o
+        return "pc " + " ".join(tr(o, r) for o, r in zip(ops, outs))
 
     def canon_impl(self, line, out):
-        return nu.canon_impl(out) if line.startswith("node ") else out
+        if line.startswith("node "):
+            return nu.canon_impl(out)
+        return out      # the B results (real bytes) stay visible: the oracle decides F11 instances on them
+
+    def canon_model(self, line, out):
+        return out
 
     def nontrivial(self, line, impl_out):
         return True
@@ -141,6 +176,8 @@ class C01(Property):
                 return "payload delivered between nodes that are not mutually trusting"
             return None
         # object level: every mutated / untrusted / random handshake datagram: non-fatal error, no reply, nothing changed
+        real = self._real_bytes(ops, outs)
+        f11 = None          # first failure that is an instance of known finding F11; reported only if nothing else fails
         lastq = None
         for i, (o, r) in enumerate(zip(ops, outs)):
             if o.startswith("Q."):
@@ -148,33 +185,37 @@ class C01(Property):
                     prev = ops[i - 1]
                     if outs[i - 1] == "-":
                         pass
-                    elif prev[0] == "T" and self._intact(prev, outs[i - 1]):
-                        pass
                     else:
-                        return "rejected datagram (%s -> %s) altered the handshake state: %s -> %s" % (prev[:40], outs[i - 1], lastq[1], r)
+                        why = "rejected datagram (%s -> %s) altered the handshake state: %s -> %s" % (prev[:40], outs[i - 1], lastq[1], r)
+                        if self._zero_completed(prev, real) or prev[0] == "V":
+                            f11 = f11 or (self.F11_TAG + why)
+                        else:
+                            return why
                 lastq = (i, r)
             elif o[0] in "FR" or (o[0] == "T") or o[0] == "V":
-                if r == "-":
+                if r == "-" or r == "err":
                     continue
-                if o[0] == "T" and self._intact(o, r):
-                    continue
-                if r == "fatal":
-                    return "datagram without valid signed content (%s) caused a fatal handshake error (the pending handshake would be deleted)" % o[:40]
-                if r != "err":
-                    return "datagram without valid signed content (%s) was not rejected: %s" % (o[:40], r[:60])
+                why = ("datagram without valid signed content (%s) caused a fatal handshake error (the pending handshake would be deleted)" % o[:40]
+                       if r == "fatal" else "datagram without valid signed content (%s) was not rejected: %s" % (o[:40], r[:60]))
+                if self._zero_completed(o, real) or o[0] == "V":
+                    f11 = f11 or (self.F11_TAG + why)
+                else:
+                    return why
             elif o.startswith("L.") and i > 0 and ops[i - 1].startswith("I.3"):
                 if r != "err":
                     return "message signed with an untrusted key was not rejected: " + r[:40]
-        return None
+        return f11
 
-    def _intact(self, op, res):
-        # every cut used is below the shortest handshake datagram (130 bytes): always a real truncation
-        return False
+    F11_TAG = "[F11: truncated genuine handshake message completed by the bytes behind it] "
 
     def known_class(self, line, impl_out):
-        if " V." in line:
-            return "F11"
-        return None
+        """F11 only if the sole failure of the case is an F11 instance: a truncation of a genuine handshake datagram that the
+        bytes behind it in the receive buffer complete again (op V: the stale copy of the same datagram; op T: removed bytes
+        all 0x00 and a fresh zero-filled buffer).  Any other failure in the same case takes precedence in oracle()."""
+        if line.startswith("node "):
+            return None
+        why = self.oracle(line, impl_out)
+        return "F11" if (why is not None and why.startswith(self.F11_TAG)) else None
 
 
 PROP = C01()
